@@ -110,6 +110,14 @@ case("F32 groupby_scan with dtype given as a string", lambda: groupby_scan(np.ar
 # F33
 case("F33 method=None with reindex=True, one group per block", lambda: groupby_reduce(da.from_array(np.arange(12.), chunks=2), np.repeat(np.arange(6), 2), func="sum", reindex=True)[0].compute().tolist(), lambda r: r == [1.0, 5.0, 9.0, 13.0, 17.0, 21.0])
 
+# F34
+case("F34 blockwise with a size-1 label dimension over several blocks", lambda: groupby_reduce(da.from_array(np.arange(6.), chunks=3), np.array([0.]), func="sum", method="blockwise")[0].compute().tolist(), lambda r: r == [15.0])
+case("F34 auto plan, size-1 labels, no requested label present", lambda: groupby_reduce(da.from_array(np.arange(6.), chunks=3), np.array([5.]), func="sum", expected_groups=np.array([0.]), fill_value=0)[0].compute().tolist(), lambda r: r == [0.0])
+# F35
+case("F35 auto plan, arg reduction, no requested label present", lambda: groupby_reduce(da.from_array(np.arange(6.), chunks=3), np.full(6, 7.), func="argmax", expected_groups=np.array([0., 1., 2.]), fill_value=-1)[0].compute().tolist(), lambda r: r == [-1, -1, -1])
+# F36
+case("F36 blockwise over three reduced axes", lambda: groupby_reduce(da.ones((2, 2, 2), chunks=(1, 1, 1)), np.arange(8).reshape(2, 2, 2), func="sum", method="blockwise")[0].compute().tolist(), lambda r: r == [1.0] * 8)
+
 bad = 0
 for name, verdict in results:
     print(f"{name:55s} {verdict}")
